@@ -257,6 +257,15 @@ theorem KidsIn.elem {inp : Input} {u : Url} {f : File} (k : Kind) (h : storeAt i
   · next ks hks => simp [refsViews_mem hks hr]
   · simp [refsList] at hr
 
+theorem NodeIn.self {inp : Input} {u : Url} {f : File} (h : storeAt inp u = some f) :
+    NodeIn inp (some u) (.mk 0 .pathItem f.selfRef []) := by
+  intro r hr
+  rw [refsAt_of_docAt (storeAt_docAt h)]
+  unfold File.refs
+  rw [Node.refs] at hr
+  simp only [refsList, List.append_nil] at hr
+  simp [hr]
+
 theorem KidsIn.tops {inp : Input} {u : Url} {f : File} (h : storeAt inp u = some f) : KidsIn inp (some u) f.tops := by
   intro r hr
   rw [refsAt_of_docAt (storeAt_docAt h)]
@@ -312,7 +321,7 @@ theorem Ext.trans {a b c : St} (h1 : Ext a b) (h2 : Ext b c) : Ext a c := fun u 
 
 theorem Inv.tick {inp : Input} {st : St} (n : Nat) (h : Inv inp st) : Inv inp (tick n st) := ⟨h.marks, h.just, h.off, h.nfo, h.uni⟩
 theorem Inv.oof {inp : Input} {st : St} (h : Inv inp st) : Inv inp { st with oof := true } := ⟨h.marks, h.just, h.off, h.nfo, h.uni⟩
-theorem Inv.inprog {inp : Input} {st : St} (l : List String) (h : Inv inp st) : Inv inp { st with inprog := l } :=
+theorem Inv.inprog {inp : Input} {st : St} (l : List (Kind × String)) (h : Inv inp st) : Inv inp { st with inprog := l } :=
   ⟨h.marks, h.just, h.off, h.nfo, h.uni⟩
 theorem Inv.docs {inp : Input} {st : St} (l : List Url) (h : Inv inp st) : Inv inp { st with docs := l } :=
   ⟨h.marks, h.just, h.off, h.nfo, h.uni⟩
@@ -603,8 +612,8 @@ theorem frag_step {inp : Input} {f : Nat} (ihR : PResolve inp f) (ihW : PWalk in
           exact walk_mark_unvisit ihW cx (home, id) copy r.text kind val hI2 he02 hv
             (hC.path.ext he02) (hC.doc.ext he02)
 
-theorem resolve_step {inp : Input} {f : Nat} (ihF : PFrag inp f) (ihW : PWalk inp f) (ihL : PLoad inp f) :
-    PResolve inp (f + 1) := by
+theorem resolve_step {inp : Input} {f : Nat} (ihR : PResolve inp f) (ihF : PFrag inp f) (ihW : PWalk inp f)
+    (ihL : PLoad inp f) : PResolve inp (f + 1) := by
   intro cx home copy n st hI hC hn
   cases n with
   | mk id kind ref kids =>
@@ -628,31 +637,54 @@ theorem resolve_step {inp : Input} {f : Nat} (ihF : PFrag inp f) (ihW : PWalk in
       exact hI.marks _ (mem_assoc hv)
     · split
       · exact ⟨(hI.addPend copy r.text kind (home, id)).tick 2, by intro x hx; simpa using hx, by intro _ h; cases h⟩
-      · have hI0 : Inv inp { st with inprog := r.text :: st.inprog } := hI.inprog _
+      · have hI0 : Inv inp { st with inprog := (kind, r.text) :: st.inprog } := hI.inprog _
         split
         · -- .whole: loadSingleElementFromURI
           next hform =>
           split
           · exact ⟨hI0.tick 3, Ext.refl st, by intro _ h; cases h⟩
           · next u al hg =>
-            have hj := guarded_read_justified (st := { st with inprog := r.text :: st.inprog }) hg hC.home hC.path.2 hrin
+            have hj := guarded_read_justified (st := { st with inprog := (kind, r.text) :: st.inprog }) hg hC.home hC.path.2 hrin
               (by rw [hform]; decide)
             have hrd := hI0.logRead al u hj.1 hj.2.1 hj.2.2
-            have he : Ext st (logRead al u { st with inprog := r.text :: st.inprog }) := by
+            have he : Ext st (logRead al u { st with inprog := (kind, r.text) :: st.inprog }) := by
               intro x hx; simp [hx]
-            have hu : u ∈ (logRead al u { st with inprog := r.text :: st.inprog }).log := by simp
+            have hu : u ∈ (logRead al u { st with inprog := (kind, r.text) :: st.inprog }).log := by simp
             split
             · exact ⟨hrd.tick 12, he, by intro _ h; cases h⟩
             · next file hfile =>
-              have hl : LoadedU inp (logRead al u { st with inprog := r.text :: st.inprog }).log (some u) :=
+              have hl : LoadedU inp (logRead al u { st with inprog := (kind, r.text) :: st.inprog }).log (some u) :=
                 LoadedU.here hu hfile
               split
               · split
                 · exact ⟨hrd.tick 22, he, by intro _ h; cases h⟩
                 split
+                · -- the file is itself a reference (path item): resolve it as a copy with the file's location
+                  have he4 : Ext st (tick 24 (logRead al u { st with inprog := (kind, r.text) :: st.inprog })) := by
+                    intro x hx; simpa using he x hx
+                  have hr := ihR ⟨cx.doc, some u⟩ (some u, st.log.length + 1) true (.mk 0 .pathItem file.selfRef [])
+                    (tick 24 (logRead al u { st with inprog := (kind, r.text) :: st.inprog })) (hrd.tick 24)
+                    ⟨by simpa using hl, by simpa using (hC.ext he).doc, by simpa using hl⟩ (NodeIn.self hfile)
+                  split
+                  · next st1 heq => rw [heq] at hr; exact ⟨hr.1, he4.trans hr.2.1, by intro _ h; cases h⟩
+                  · next st1 heq =>
+                    rw [heq] at hr
+                    refine ⟨(hr.1.unvisit _ _ none (by intro _ h; cases h)).tick 25, ?_, by intro _ h; cases h⟩
+                    intro x hx; simpa using hr.2.1 x (he4 x hx)
+                  · next st1 val heq =>
+                    rw [heq] at hr
+                    obtain ⟨hI1, he1, hv1⟩ := hr
+                    have hv : ValOK inp st1.log val := hv1 val rfl
+                    simp only at hI1 he1 hv
+                    have he01 : Ext st st1 := he4.trans he1
+                    have hl4 : LoadedU inp (tick 24 (logRead al u { st with inprog := (kind, r.text) :: st.inprog })).log (some u) := by
+                      simpa using hl
+                    exact walk_mark_unvisit ihW ⟨cx.doc, some u⟩ (home, id) copy r.text kind val hI1 he01 hv
+                      (hl4.ext he1) ((hC.ext he01).doc)
+                split
                 · exact ⟨(hrd.unvisit _ _ none (by intro _ h; cases h)).tick 23, by intro x hx; simpa using he x hx,
                     by intro _ h; cases h⟩
-                have hv : ValOK inp (logRead al u { st with inprog := r.text :: st.inprog }).log
+                have hv : ValOK inp (logRead al u { st with inprog := (kind, r.text) :: st.inprog }).log
                     ((some u, st.log.length + 1), file.elemAs kind) := ⟨hl, KidsIn.elem kind hfile⟩
                 exact walk_mark_unvisit ihW ⟨cx.doc, some u⟩ (home, id) copy r.text kind
                   ((some u, st.log.length + 1), file.elemAs kind) (hrd.tick 4)
@@ -661,7 +693,7 @@ theorem resolve_step {inp : Input} {f : Nat} (ihF : PFrag inp f) (ihW : PWalk in
               · exact ⟨hrd.tick 13, he, by intro _ h; cases h⟩
         · -- .internal
           next hform =>
-          have hp := ihF cx home copy id kind r cx.doc cx.path { st with inprog := r.text :: st.inprog } hI0
+          have hp := ihF cx home copy id kind r cx.doc cx.path { st with inprog := (kind, r.text) :: st.inprog } hI0
             ⟨hC.path, hC.doc, hC.home⟩ hC.doc hC.path
           exact ⟨hp.1, hp.2.1, hp.2.2⟩
         · -- .fragment: resolveComponent through resolveRefAndDocument
@@ -669,9 +701,9 @@ theorem resolve_step {inp : Input} {f : Nat} (ihF : PFrag inp f) (ihW : PWalk in
           split
           · exact ⟨hI0.tick 3, Ext.refl st, by intro _ h; cases h⟩
           · next u al hg =>
-            have hj := guarded_read_justified (st := { st with inprog := r.text :: st.inprog }) hg hC.home hC.path.2 hrin
+            have hj := guarded_read_justified (st := { st with inprog := (kind, r.text) :: st.inprog }) hg hC.home hC.path.2 hrin
               (by rw [hform]; decide)
-            have hl := ihL al u { st with inprog := r.text :: st.inprog } hI0 hj.1 hj.2.1 hj.2.2
+            have hl := ihL al u { st with inprog := (kind, r.text) :: st.inprog } hI0 hj.1 hj.2.1 hj.2.2
             split
             · next st1 heq => rw [heq] at hl; exact ⟨hl.1.1, hl.1.2, by intro _ h; cases h⟩
             · next st1 heq =>
@@ -705,7 +737,7 @@ theorem all_steps (inp : Input) : ∀ f, PResolve inp f ∧ PFrag inp f ∧ PWal
       exact ⟨⟨hI.oof, Ext.refl st⟩, by intro h; cases h⟩
   | succ f ih =>
     obtain ⟨ihR, ihF, ihW, ihL⟩ := ih
-    exact ⟨resolve_step ihF ihW ihL, frag_step ihR ihW, walk_step ihR ihW, load_step ihW⟩
+    exact ⟨resolve_step ihR ihF ihW ihL, frag_step ihR ihW, walk_step ihR ihW, load_step ihW⟩
 
 theorem Inv.init (inp : Input) : Inv inp St.init := by
   refine ⟨?_, fun _ => AllJust.nil inp, ?_, fun _ => rfl, fun _ => rfl⟩
